@@ -70,6 +70,9 @@ class Gen:
     """ways to drive a signal: list of (target_text, width)"""
     if typ[0] == 'struct':
       if s.rng.random() < 0.3: return [(f's.{n}', STRUCT_WIDTH[typ[1]], typ[1])]
+      if typ[1] == 'Outer' and s.rng.random() < 0.4:
+        s.features.add('mid-level-struct-write')          # the nested struct field is written as a whole, its leaves are read
+        return [(f's.{n}.p', 12, 'Pt'), (f's.{n}.c', 4, None)]
       return [(f's.{n}.{p}', w, None) for p, w in STRUCT_UNITS[typ[1]]]
     W = typ[1]
     if W >= 2 and s.rng.random() < 0.45:
@@ -153,7 +156,7 @@ class Gen:
         for j in range(2): s.inputs.append((f'tb[{i}][{j}]', ('bits', 8)))
       s.idx.append('tb'); s.features.add('signal-index:2d-list')
     # registers (state): readable from the start
-    nreg = rng.randrange(0, 4) if s.with_ff else 0
+    nreg = (rng.randrange(0, 4) if s.size != 'large' or rng.random() < 0.5 else rng.randrange(6, 12)) if s.with_ff else 0
     regs = []
     for _ in range(nreg):
       typ = ('struct', 'Pt') if rng.random() < 0.2 else ('bits', 12 if rng.random() < 0.15 else s.w())
@@ -165,6 +168,13 @@ class Gen:
       listreg = (k, lw)
       for i in range(k): s.avail.append((f's.rl[{i}]', lw, True))
       s.features.add('listreg')
+    # a bank of enable-style registers, one branchy update_ff block each (schedulers pack such blocks into meta blocks)
+    bank = 0
+    if s.with_ff and rng.random() < 0.15:
+      bank = rng.randrange(7, 14)
+      s.lines.append(f's.bk = [ Wire( 8 ) for _ in range({bank}) ]')
+      for i in range(bank): s.avail.append((f's.bk[{i}]', 8, True))
+      s.features.add('ff-bank-of-branchy-blocks')
     children = []
     nblk = {'small': rng.randrange(2, 7), 'medium': rng.randrange(5, 14), 'large': rng.randrange(12, 26)}[s.size]
     bi = 0
@@ -226,7 +236,10 @@ class Gen:
         for t, w, st in g:
           if st:
             srcs = [a for a in s.avail if a[2] == 'struct:' + st]
-            if srcs: e1 = e2 = rng.choice(srcs)[0]
+            if srcs and rng.random() < 0.7: e1 = e2 = rng.choice(srcs)[0]
+            elif rng.random() < 0.6:
+              # construct the value
+              e1 = e2 = f'Pt( {s.src_expr(8)}, {s.src_expr(4)} )' if st == 'Pt' else f'Outer( Pt( {s.src_expr(8)}, {s.src_expr(4)} ), {s.src_expr(4)} )'
             else:
               # build the struct fieldwise instead
               for p, fw in STRUCT_UNITS[st]:
@@ -290,6 +303,10 @@ class Gen:
           if ssrc and rng.random() < 0.6:
             e = rng.choice(ssrc)[0]; s.features.add('bits-reg-from-struct')     # Bits register <<= struct-typed signal
         r = rng.random()
+        if w and rng.random() < 0.3:
+          # the usual reset idiom (what the register holds after sim_reset depends on the polarity the pass group was given)
+          body += ['if s.reset:', f'  {t} <<= {rng.randrange(0, 1 << min(w, 6))}', 'else:', f'  {t} <<= {e}']; s.features.add('ff-reset-idiom')
+          continue
         if r < 0.3:
           c = rng.choice([a for a in s.avail if not isinstance(a[2], str) and re.fullmatch(r's(\.[A-Za-z_0-9]+(\[\d+\])?)+', a[0])])
           body += [f'if {c[0]}[0]:', f'  {t} <<= {e}']; s.features.add('ff-hold')
@@ -307,6 +324,10 @@ class Gen:
         c = rng.choice([a for a in s.avail if not isinstance(a[2], str) and re.fullmatch(r's(\.[A-Za-z_0-9]+(\[\d+\])?)+', a[0])])
         s.lines += ['@update_ff', f'def f{fi}():', f'  for i in range({k}):', f'    if {c[0]}[i % {c[1]}]:', f'      s.rl[i] <<= s.rl[{k-1} - i]', '    else:', f'      s.rl[i] <<= {s.src_expr(lw)}']; fi += 1
         s.features.add('ff-loop-with-branch')
+    for j in range(bank):
+      c = rng.choice([a for a in s.avail if not isinstance(a[2], str) and re.fullmatch(r's(\.[A-Za-z_0-9]+(\[\d+\])?)+', a[0])])
+      s.lines += ['@update_ff', f'def fb{j}():', f'  if {c[0]}[0]:', f'    s.bk[{j}] <<= {s.src_expr(8)}'] + (['  else:', f'    s.bk[{j}] <<= s.bk[{(j + 1) % bank}]'] if rng.random() < 0.3 else [])
+      fi += 1
     if fi: s.features.add('ff')
     s.wrap = rng.random() < 0.3 and not s.idx
     if s.wrap: s.features.add('wrapped-one-level-down')
@@ -352,7 +373,7 @@ def kahn_random(V, E, rng):
       if ind[v] == 0: ready.append(v)
   return order if len(order) == len(V) else None
 
-def build(cls, sched, rng=None, ff_perm=None, seed=0, prefer=None, trace=False):
+def build(cls, sched, rng=None, ff_perm=None, seed=0, prefer=None, trace=False, reset_high=True):
   """elaborate + apply a scheduling pass group. Returns top. Raises whatever the passes raise.
   prefer=(b, a) (indices into Footprints(top).comb, only with sched='forced'): the linear extension of pymtl3's
   constraint graph that runs block b and its ancestors first and block a afterwards (None if the graph orders a before b)"""
@@ -392,18 +413,18 @@ def build(cls, sched, rng=None, ff_perm=None, seed=0, prefer=None, trace=False):
     if ff_perm is not None:
       ffs = sorted(top._sched.schedule_ff, key=lambda b: (b.__name__, repr(top.get_update_block_host_component(b))))
       top._sched.schedule_ff = [ffs[i] for i in ff_perm]
-    PrepareSimPass(print_line_trace=trace)(top)
+    PrepareSimPass(print_line_trace=trace, reset_active_high=reset_high)(top)
   elif sched == 'dynamic':
     if ff_perm is None:
-      top.apply(DefaultPassGroup(linetrace=trace))
+      top.apply(DefaultPassGroup(linetrace=trace, reset_active_high=reset_high))
     else:
       GenDAGPass()(top); WrapGreenletPass()(top); DynamicSchedulePass()(top)
       ffs = sorted(top._sched.schedule_ff, key=lambda b: (b.__name__, repr(top.get_update_block_host_component(b))))
       top._sched.schedule_ff = [ffs[i] for i in ff_perm]
-      PrepareSimPass(print_line_trace=trace)(top)
-  elif sched == 'unroll':    UnrollSim(print_line_trace=trace)(top)
-  elif sched == 'heuristic': HeuTopoUnrollSim(print_line_trace=trace)(top)
-  elif sched == 'mamba':     Mamba2020(print_line_trace=trace)(top)
+      PrepareSimPass(print_line_trace=trace, reset_active_high=reset_high)(top)
+  elif sched == 'unroll':    UnrollSim(print_line_trace=trace, reset_active_high=reset_high)(top)
+  elif sched == 'heuristic': HeuTopoUnrollSim(print_line_trace=trace, reset_active_high=reset_high)(top)
+  elif sched == 'mamba':     Mamba2020(print_line_trace=trace, reset_active_high=reset_high)(top)
   else: raise ValueError(sched)
   return top
 
